@@ -36,20 +36,29 @@ Thing(fam, blocks, op, cat, pkg, ver, slot, sub, sop, repo, use, perm, neg) ==
      sub |-> sub, sop |-> sop, repo |-> repo, use |-> use, perm |-> perm, neg |-> neg]
 
 NUse == 5        \* USE lists 1..5 (the driver's table); lists 3..5 have two or more flags
+(* Names are opaque codes here; the driver's tables give them spellings.  The
+   tables are a NAME FAMILY chosen so that comparing a concatenation (the key
+   "cat/pkg", the cpv string, "slot/subslot") orders objects differently from
+   comparing the components: next to a plain name they hold the same name continued
+   by a character that sorts below the separators "/" ":" "-" in ASCII ("+", "-",
+   ".") and by one that sorts above them ("0").  Every code is an alternative value
+   of its attribute in every star, and the name universes below hold all
+   category x package combinations.                                              *)
+NCat == 6   NPkg == 5   NSlot == 3   NSub == 3   NRepo == 3
 \* every valid thing that differs from b in exactly the attribute f
 Alt(b, f) ==
     LET raw ==
         CASE f = "blocks" -> {[b EXCEPT !.blocks = x] : x \in 0..2}
           [] f = "op"     -> {[b EXCEPT !.op = x, !.ver = IF x = 0 THEN V1 ELSE IF b.op = 0 THEN V10 ELSE b.ver,
                                         !.neg = IF x = 0 THEN 0 ELSE b.neg] : x \in 0..5}
-          [] f = "cat"    -> {[b EXCEPT !.cat = x] : x \in 1..2}
-          [] f = "pkg"    -> {[b EXCEPT !.pkg = x] : x \in 1..2}
+          [] f = "cat"    -> {[b EXCEPT !.cat = x] : x \in 1..NCat}
+          [] f = "pkg"    -> {[b EXCEPT !.pkg = x] : x \in 1..NPkg}
           [] f = "ver"    -> IF b.op = 0 THEN {} ELSE {[b EXCEPT !.ver = x] : x \in VAll}
           [] f = "slot"   -> {[b EXCEPT !.slot = x, !.sub = IF x = 0 THEN 0 ELSE b.sub,
-                                        !.sop = IF x # 0 /\ b.sop = 2 THEN 0 ELSE b.sop] : x \in 0..2}
-          [] f = "sub"    -> {[b EXCEPT !.sub = x] : x \in 0..2}
+                                        !.sop = IF x # 0 /\ b.sop = 2 THEN 0 ELSE b.sop] : x \in 0..NSlot}
+          [] f = "sub"    -> {[b EXCEPT !.sub = x] : x \in 0..NSub}
           [] f = "sop"    -> {[b EXCEPT !.sop = x] : x \in 0..2}
-          [] f = "repo"   -> {[b EXCEPT !.repo = x] : x \in 0..2}
+          [] f = "repo"   -> {[b EXCEPT !.repo = x] : x \in 0..NRepo}
           [] f = "use"    -> {[b EXCEPT !.use = x, !.perm = IF x >= 3 THEN b.perm ELSE 0] : x \in 0..NUse}
           [] f = "perm"   -> IF b.use >= 3 THEN {[b EXCEPT !.perm = x] : x \in 0..1} ELSE {}
           [] f = "neg"    -> {[b EXCEPT !.neg = x] : x \in 0..1}
@@ -79,12 +88,24 @@ BasesThorough(dummy) ==
 CpvV(c, p, v) == Thing(1, 0, 1, c, p, v, 0, 0, 0, 0, 0, 0, 0)
 CpvU(c, p)    == Thing(1, 0, 0, c, p, V1, 0, 0, 0, 0, 0, 0, 0)
 CpvVersioned   == {CpvV(1, 1, v) : v \in VAll \cup VMore} \cup {CpvV(1, 2, V10), CpvV(2, 1, V10), CpvV(2, 1, Ver(<<<<1>>, <<0, 0>>>>, <<>>, <<>>))}
-CpvUnversioned == {CpvU(c, p) : c \in 1..3, p \in 1..3}
+CpvUnversioned == {CpvU(c, p) : c \in 1..NCat, p \in 1..NPkg}
+\* name universes: every category x package combination, as versioned CPVs and as
+\* unversioned / versioned / slotted atoms
+CpvNames     == {CpvV(c, p, V10) : c \in 1..NCat, p \in 1..NPkg}
+AtomNames    == {[BaseBare EXCEPT !.cat = c, !.pkg = p] : c \in 1..NCat, p \in 1..NPkg}
+AtomNamesVer == {[BaseBare EXCEPT !.cat = c, !.pkg = p, !.op = 1, !.ver = V10] : c \in 1..NCat, p \in 1..NPkg}
+AtomNamesSlot == {t \in {[BaseBare EXCEPT !.slot = sl, !.sub = sb, !.repo = rp] :
+                               sl \in 0..NSlot, sb \in 0..NSub, rp \in {0, 3}} : ValidThing(t)}
+NameUniverses == {CpvUnversioned, CpvNames, AtomNames, AtomNamesVer, AtomNamesSlot}
 
 (* ---- the universes exported to the code: sequences are made by the Export module ---- *)
-UniversesOf(tier) ==
-    IF tier = "quick" THEN {Star1(b) : b \in BasesQuick} \cup {CpvVersioned, CpvUnversioned}
-    ELSE {Star2(b) : b \in BasesThorough(tier)} \cup {CpvVersioned, CpvUnversioned}
+StarUniversesOf(tier) ==
+    IF tier = "quick" THEN {Star1(b) : b \in BasesQuick} \cup {CpvVersioned}
+    ELSE {Star2(b) : b \in BasesThorough(tier)} \cup {CpvVersioned}
+UniversesOf(tier) == StarUniversesOf(tier) \cup NameUniverses
+\* the reference model treats names as codes, so its laws are evaluated on the stars and on
+\* two of the name universes only; the code is observed on all of them
+LawUniversesOf(tier) == StarUniversesOf(tier) \cup {AtomNames, AtomNamesSlot}
 
 (* ---- small groups for the container state machine ---- *)
 GroupCpv   == {CpvV(1, 1, v) : v \in {V10, Ver(<<<<1>>, <<0, 0>>>>, <<>>, <<>>), Ver(<<<<1>>, <<0>>>>, <<>>, <<0>>),
